@@ -82,8 +82,20 @@ class Check:
 
     # -- recording ----------------------------------------------------------
     @contextlib.contextmanager
+    def pinned(self, rule_id: str):
+        """Runs another property's rule group under this property's rule id (nested rule() blocks keep it)."""
+        prev_pin = getattr(self, "_pin", None)
+        self._pin = rule_id
+        try:
+            with self.rule(rule_id):
+                yield
+        finally:
+            self._pin = prev_pin
+
+    @contextlib.contextmanager
     def rule(self, rule_id: str):
         prev = self._rule
+        rule_id = getattr(self, "_pin", None) or rule_id
         self._rule = rule_id
         try:
             yield
